@@ -233,7 +233,7 @@ fn nat_pack(shape: &[usize], el: &[u8], axis: Option<isize>, order: &Order) -> N
 fn nat_text(a: NatAns) -> Option<String> {
     a.map(|r| match r { Ok((sh, el)) => format!("ok {}:{}", show_list(&sh), show_list(&el)), Err(()) => "err reference".to_string() })
 }
-fn base_op(op: &str) -> &str { op.strip_suffix("_ref").or_else(|| op.strip_suffix("_n")).unwrap_or(op) }
+fn base_op(op: &str) -> &str { op.strip_suffix("_ref").or_else(|| op.strip_suffix("_n")).or_else(|| op.strip_suffix("_g")).unwrap_or(op) }
 fn parse_raw_bytes(s: &str) -> Option<(Vec<usize>, Vec<u8>)> {
     let (sh, el) = s.split_once(':')?;
     let elems: Vec<u8> = if el == "-" { vec![] } else { el.split(',').map(|x| x.parse::<u8>().ok()).collect::<Option<Vec<u8>>>()? };
@@ -301,13 +301,16 @@ fn exec(op: &str, args: &[&str], expected: &str) -> Option<Verdict> {
         "seq" => { PREV.with(|p| *p.borrow_mut() = None); return exec_seq(args, expected); }
         "oracle_report" => {
             let (n, silent, only, aba, sq) = (ORACLE_CHECKED.load(AtOrd::Relaxed), ORACLE_SILENT.load(AtOrd::Relaxed), ORACLE_ONLY.load(AtOrd::Relaxed), ABA_RERUNS.load(AtOrd::Relaxed), SEQ_MEMBERS.load(AtOrd::Relaxed));
-            let text = format!("ok report: so far the harness-native reference agreed with the full model answer on {n} cases (no opinion on {silent}), {only} huge cases compared with the reference only, {aba} A-B-A re-runs, {sq} seq members");
+            let (gi, gs, dv) = (GIANT_CASES.load(AtOrd::Relaxed), GIANT_SHAPED.load(AtOrd::Relaxed), DIFF_VALIDATED.load(AtOrd::Relaxed));
+            let text = format!("ok report: so far the harness-native reference agreed with the full model answer on {n} cases (no opinion on {silent}), {only} huge cases compared with the reference only, {aba} A-B-A re-runs, {sq} seq members; {gi} giant cases compared in place with the reference ({gs} of them with the model's result shape), the in-place comparison itself cross-checked against the text comparison on {dv} small cases");
             if args.first() == Some(&"final") && n < 1000 { return Some(Verdict::Mismatch { observed: text, detail: "the reference was compared with the model on fewer than 1000 cases".into() }); }
+            if args.first() == Some(&"final") && gi > 0 && dv < 1000 { return Some(Verdict::Mismatch { observed: text, detail: "the in-place comparison used for the giant cases was cross-checked on fewer than 1000 small cases".into() }); }
             return Some(Verdict::Match(text));
         }
         _ => {}
     }
-    let mut v = exec_single(op, args, expected)?;
+    let giant = op.ends_with("_g");
+    let mut v = if giant { exec_giant(op, args, expected)? } else { exec_single(op, args, expected)? };
     if !is_array_op(op) { return Some(v); }
     // A-B-A: after this case (B) the previous case (A) is called again and must answer what it answered before B
     let prev = PREV.with(|p| p.borrow_mut().take());
@@ -321,11 +324,151 @@ fn exec(op: &str, args: &[&str], expected: &str) -> Option<Verdict> {
             }
         }
     }
-    if args[0].len() <= 3000 {
+    if args[0].len() <= 3000 && !giant {
         if let Verdict::Match(o) = &v { PREV.with(|p| *p.borrow_mut() = Some((op.to_string(), args.iter().map(|s| s.to_string()).collect(), o.clone()))); }
     }
     Some(v)
 }
+
+// ------------------------------------------------------------------ part 3: giant inputs (2^20 .. 1.7 * 10^7 elements)
+//
+// A giant array is named `shape:@pattern` in the case line and built here; results are never formatted: the crate's answer is
+// compared IN PLACE (`diff_result`) with the structured answer of the same harness-native reference (`nat_unpack` / `nat_pack`)
+// that every small case compares with the full model answer; only the first differing position is printed.  `diff_result` itself is
+// cross-checked against the text comparison on the small cases (`DIFF_VALIDATED`).
+
+static GIANT_CASES: AtomicUsize = AtomicUsize::new(0);
+static GIANT_SHAPED: AtomicUsize = AtomicUsize::new(0);
+static DIFF_VALIDATED: AtomicUsize = AtomicUsize::new(0);
+
+fn mix(i: u64, salt: u64) -> u64 {
+    let mut z = i.wrapping_add(salt).wrapping_mul(0x9E3779B97F4A7C15);
+    z = (z ^ (z >> 30)).wrapping_mul(0xBF58476D1CE4E5B9);
+    z = (z ^ (z >> 27)).wrapping_mul(0x94D049BB133111EB);
+    z ^ (z >> 31)
+}
+/// deterministic data of a giant array: `p*` byte patterns, `b*` bit patterns (every pattern ends in non-zero entries, so that a lost
+/// or zeroed tail is visible in the values and not only in the length)
+fn giant_fill(pat: &str, n: usize) -> Option<Vec<u8>> {
+    let mut v: Vec<u8> = match pat {
+        "p0" => (0..n).map(|i| ((i * 7 + 3) % 256) as u8).collect(),
+        "p1" => (0..n).map(|i| mix(i as u64, 0xB19) as u8).collect(),
+        "p2" => (0..n).map(|i| [0x01u8, 0x80, 0xA5, 0x3C, 0xFE, 0x7F, 0x00, 0xFF, 0x10][i % 9]).collect(),
+        "p3" => vec![0xFF; n],
+        "b0" => (0..n).map(|i| (mix(i as u64, 0xB175) & 1) as u8).collect(),
+        "b1" => (0..n).map(|i| ((i % 11 == 0) || (i % 7 == 3)) as u8).collect(),
+        "b2" => (0..n).map(|i| [0u8, 0, 1, 1, 2, 7, 128, 255][(mix(i as u64, 0x2B) % 8) as usize]).collect(),
+        "b3" => { let mut v = vec![0u8; n]; if n > 0 { v[0] = 1; } if n > 9 { v[n - 9] = 1; } v }
+        "b4" => (0..n).map(|i| if i % 3 == 0 { 255 } else { 1 }).collect(),
+        _ => return None,
+    };
+    if let Some(l) = v.last_mut() { if *l == 0 { *l = if pat.starts_with('b') { 1 } else { 0x81 }; } }
+    Some(v)
+}
+/// `shape:@pattern` or `shape:@pattern+` (`+`: both receivers are called; otherwise one call, receivers alternating from case to case)
+fn parse_giant(s: &str) -> Option<(Vec<usize>, Vec<u8>, bool)> {
+    let (sh, pat) = s.split_once(":@")?;
+    let (pat, both) = match pat.strip_suffix('+') { Some(p) => (p, true), None => (pat, false) };
+    let shape = parse_usize_list(sh);
+    if shape.is_empty() || prod(&shape) == 0 { return None; }
+    let data = giant_fill(pat, prod(&shape))?;
+    Some((shape, data, both))
+}
+type NatRes = Result<(Vec<usize>, Vec<u8>), ()>;
+/// the crate's answer against the reference's structured answer, in place: `Ok(short description)` when they agree, otherwise the
+/// first difference
+fn diff_result(r: &Result<Array<u8>, ArrayError>, reference: &NatRes) -> Result<String, String> {
+    match (r, reference) {
+        (Err(e), Err(())) => Ok(format!("err {}", err_name(e))),
+        (Err(e), Ok((sh, _))) => Err(format!("the crate answers err {} where the reference has an array of shape {}", err_name(e), show_list(sh))),
+        (Ok(a), Err(())) => Err(format!("the crate answers an array of shape {} where the reference refuses", show_list(&a.get_shape().unwrap()))),
+        (Ok(a), Ok((sh, el))) => {
+            let (gs, ge) = (a.get_shape().unwrap(), a.get_elements().unwrap());
+            if !consistent(a) { return Err(format!("inconsistent array: shape {} with {} elements", show_list(&gs), ge.len())); }
+            if &gs != sh { return Err(format!("result shape {} ({} elements), the reference has shape {} ({} elements)", show_list(&gs), ge.len(), show_list(sh), el.len())); }
+            if ge.len() != el.len() { return Err(format!("{} elements, the reference has {}", ge.len(), el.len())); }
+            match (0..el.len()).find(|&p| ge[p] != el[p]) {
+                Some(p) => Err(format!("first difference at flat position {p} of {}: {} where the reference has {}", el.len(), ge[p], el[p])),
+                None => { let h = el.iter().fold(0xcbf29ce484222325u64, |h, b| (h ^ *b as u64).wrapping_mul(0x100000001b3)); Ok(format!("ok shape {} ({} elements, fnv {h:016x})", show_list(sh), el.len())) }
+            }
+        }
+    }
+}
+/// the reference's structured answer to an unpack / pack / round-trip call (`None` = no opinion)
+fn nat_structured(base: &str, shape: &[usize], el: &[u8], axis: Option<isize>, count: Option<isize>, order: &Order) -> Option<NatRes> {
+    match base {
+        "unpack" => nat_unpack(shape, el, axis, count, order),
+        "pack" => nat_pack(shape, el, axis, order),
+        "roundtrip" => match nat_unpack(shape, el, axis, None, order)? { Err(()) => Some(Err(())), Ok((sh, bits)) => nat_pack(&sh, &bits, axis, order) },
+        _ => None,
+    }
+}
+fn native_structured(op: &str, args: &[&str]) -> Option<NatRes> {
+    let (shape, el) = parse_raw_bytes(args[0])?;
+    let axis = parse_opt::<isize>(args[1]);
+    let b = base_op(op);
+    let (count, order) = if b == "unpack" { (parse_opt::<isize>(args[2]), parse_order(args[3])?) } else { (None, parse_order(args[2])?) };
+    nat_structured(b, &shape, &el, axis, count, &order)
+}
+/// the plain-receiver call as spelled, once, as a value (`Err(())` = panic)
+fn call_once(base: &str, a: &Array<u8>, chained: bool, axis: Option<isize>, count: Option<isize>, order: &Order) -> Result<Result<Array<u8>, ArrayError>, ()> {
+    std::panic::catch_unwind(std::panic::AssertUnwindSafe(|| match base {
+        "unpack" => unpack(a, chained, axis, count, order),
+        "pack" => pack(a, chained, axis, order),
+        _ => roundtrip(a, chained, axis, order),
+    })).map_err(|_| ())
+}
+fn plain_result(op: &str, args: &[&str]) -> Option<Result<Result<Array<u8>, ArrayError>, ()>> {
+    let a = parse_bytes(args[0])?; let axis = parse_opt::<isize>(args[1]);
+    let b = base_op(op);
+    let (count, order) = if b == "unpack" { (parse_opt::<isize>(args[2]), parse_order(args[3])?) } else { (None, parse_order(args[2])?) };
+    Some(call_once(b, &a, false, axis, count, &order))
+}
+
+fn exec_giant(op: &str, args: &[&str], expected: &str) -> Option<Verdict> {
+    let base = base_op(op);
+    if !matches!(base, "unpack" | "pack" | "roundtrip") { return None; }
+    let (shape, data, both) = parse_giant(args[0])?;
+    let axis = parse_opt::<isize>(args[1]);
+    let (count, order) = if base == "unpack" { (parse_opt::<isize>(args[2]), parse_order(args[3])?) } else { (None, parse_order(args[2])?) };
+    let reference = nat_structured(base, &shape, &data, axis, count, &order)?;       // giant lines are only generated where the reference has an opinion
+    // the model's part of the answer: `native` (order and axis accepted, nothing else said), an error, or the result shape
+    let model_ok = match expected {
+        "native" => true,
+        e if class_of(e) == "err" => reference.is_err(),
+        e => match e.strip_prefix("ok shape ") { Some(sh) => { GIANT_SHAPED.fetch_add(1, AtOrd::Relaxed); matches!(&reference, Ok((rs, _)) if show_list(rs) == sh) } None => false },
+    };
+    let ref_text = match &reference { Ok((sh, el)) => format!("ok shape {} ({} elements)", show_list(sh), el.len()), Err(()) => "err reference".to_string() };
+    if !model_ok { return Some(Verdict::Mismatch { observed: "not run".into(), detail: format!("the harness-native reference (`{ref_text}`) and the model's answer `{expected}` disagree (reference or model defect)") }); }
+    let a = Array::new(data.clone(), shape.clone()).expect("harness: giant array");
+    // the plain call as spelled, then the Result receiver with another spelling of the same order (rotating)
+    let mut ways: Vec<(String, bool, Order)> = vec![("the plain call as spelled".into(), false, clone_order(&order))];
+    let mut re = respellings(&order);
+    let salt = args[0].len() + args[1].len() + shape[0];
+    if re.is_empty() { ways.push(("the call on Ok(array) (Result receiver)".into(), true, clone_order(&order))); }
+    else { let (label, o) = re.swap_remove(salt % re.len()); ways.push((format!("{label}, Result receiver"), true, o)); }
+    if !both { ways.remove(if (salt / 2) % 2 == 0 { 1 } else { 0 }); }
+    let mut observed = String::new();
+    for (k, (label, chained, o)) in ways.iter().enumerate() {
+        let got = call_once(base, &a, *chained, axis, count, o);
+        let judged = match &got { Ok(r) => diff_result(r, &reference), Err(()) => Err("panic".to_string()) };
+        drop(got);
+        match judged {
+            Ok(text) => { if k == 0 { observed = if *chained { format!("{text} [{label}]") } else { text }; } }
+            Err(d) => { return Some(Verdict::Mismatch { observed: format!("{label}: {d}"), detail: format!("the harness-native reference says `{ref_text}`; the model says `{expected}`") }); }
+        }
+    }
+    // the property itself: the round trip returns the input bytes (and, by axis, the input shape)
+    if base == "roundtrip" {
+        if let Ok((sh, el)) = &reference {
+            let want_shape = if axis.is_none() { vec![data.len()] } else { shape.clone() };
+            if sh != &want_shape || el != &data { return Some(Verdict::Mismatch { observed, detail: "the reference's round trip is not the identity (reference defect)".into() }); }
+        }
+    }
+    GIANT_CASES.fetch_add(1, AtOrd::Relaxed);
+    Some(Verdict::Match(observed))
+}
+fn clone_order(o: &Order) -> Order { match o { Order::Absent => Order::Absent, Order::Enum(e) => Order::Enum(*e), Order::Str(t) => Order::Str(t.clone()), Order::Owned(t) => Order::Owned(t.clone()) } }
 
 fn exec_single(op: &str, args: &[&str], expected: &str) -> Option<Verdict> {
     let observed = match op {
@@ -392,6 +535,19 @@ fn exec_single(op: &str, args: &[&str], expected: &str) -> Option<Verdict> {
                 return Some(Verdict::Mismatch { detail: format!("the harness-native reference says `{}` but the model `{}` (reference or model defect)", truncate(&r, 300), truncate(expected, 300)), observed });
             }
             ORACLE_CHECKED.fetch_add(1, AtOrd::Relaxed);
+            // part 3: the in-place comparison used for the giant cases, cross-checked here against the text comparison.  The same
+            // plain call once more, judged by `diff_result` against the reference's structured answer: it must say "equal" exactly
+            // when the observed text equals the reference text (every 3rd case and all cases above 200 bytes of array text)
+            if (args[0].len() > 200 || ORACLE_CHECKED.load(AtOrd::Relaxed) % 3 == 0) && !observed.starts_with("DIVERGENCE") {
+                if let (Some(structured), Some(res)) = (native_structured(op, args), plain_result(op, args)) {
+                    let text_equal = observed == r || (class_of(&observed) == "err" && class_of(&r) == "err");
+                    let in_place = match &res { Ok(x) => diff_result(x, &structured), Err(()) => Err("panic".to_string()) };
+                    if in_place.is_ok() != text_equal {
+                        return Some(Verdict::Mismatch { detail: format!("harness self-check: the in-place comparison says {:?} but the text comparison with the reference `{}` says equal={text_equal}", in_place, truncate(&r, 200)), observed });
+                    }
+                    DIFF_VALIDATED.fetch_add(1, AtOrd::Relaxed);
+                }
+            }
         } else { ORACLE_SILENT.fetch_add(1, AtOrd::Relaxed); }
     }
     // the property itself, independent of the model: the round trip returns the input
@@ -848,6 +1004,173 @@ fn robustness2(thorough: bool, seed: u64, out: &mut dyn FnMut(String)) {
     }
 }
 
+// ------------------------------------------------------------------ robustness streams, part 3 (giant sizes, value relations, wrapping coordinates)
+
+fn thue_morse(n: usize) -> Vec<u8> { (0..n).map(|i| (i.count_ones() % 2) as u8).collect() }
+fn rev8(b: u8) -> u8 { b.reverse_bits() }
+
+fn robustness3(thorough: bool, seed: u64, out: &mut dyn FnMut(String)) {
+    let spell = |little: bool, k: usize| if little { ORDERS_LITTLE[k % 3] } else { ORDERS_BIG[k % 4] };
+    let mut fx = Rng::new(0xB194);
+    let mut k = 0usize;
+    let g = |sh: &[usize], pat: &str, both: bool| format!("{}:@{pat}{}", show_list(sh), if both { "+" } else { "" });
+    const M: usize = 1 << 20;
+
+    // (11.a) flat packing above 2^20 / 2^21 / 2^23 / 2^24 BITS: final groups of 1..7 bits, lengths that f32 cannot represent
+    //        (2^24 + odd: the nearest f32 is even; 2^24+1 and 2^24+9 round DOWN, 2^24+3 and 2^24+7 round up)
+    let mut pf: Vec<usize> = vec![M + 1, M + 7, 2 * M + 9, 8 * M + 1, 16 * M + 1, 16 * M + 9, 16 * M + 3];
+    if thorough { pf.extend([M - 1, M, M + 8, M + 64, M + 65, 2 * M + 1, 3 * M + 5, 4 * M + 3, 8 * M + 8, 12 * M + 11]); pf.extend(16 * M - 7..=16 * M + 17); pf.extend([16 * M + 25, 16 * M + 33, 17 * M + 1]); pf.sort(); pf.dedup(); }
+    for &n in &pf {
+        k += 1;
+        let pats = ["b0", "b3", "b1", "b2", "b4"];
+        out(format!("pack_g {} none {}", g(&[n], pats[k % 5], n % 8 == 1 && n > 16 * M || thorough), spell(k % 2 == 0, k)));
+        if thorough && n % 8 == 1 { out(format!("pack_g {} none {}", g(&[n], pats[(k + 1) % 5], true), spell(k % 2 == 1, k))); }
+    }
+    // (11.b) the same lengths as LANES (ranks 2..4; first / middle / last axis; extents that are / are not multiples of 64)
+    let mut pl: Vec<(Vec<usize>, isize)> = vec![(vec![1, 16 * M + 1], 1), (vec![2, M + 7], -1), (vec![M + 9, 2], 0)];
+    if thorough { pl.extend(vec![(vec![16 * M + 9, 1], 0), (vec![1, 16 * M + 9, 1], 1), (vec![2, 8 * M + 1], 1), (vec![1, 2, M + 64, 1], 2), (vec![3, M + 1], -1), (vec![M + 65, 3], -2), (vec![1, 1, 1, 16 * M + 1], -1), (vec![2, 4 * M + 3, 2], 1)]); }
+    for (sh, ax) in &pl {
+        k += 1;
+        out(format!("pack_g {} {ax} {}", g(sh, ["b0", "b1", "b2", "b3"][k % 4], thorough), spell(k % 2 == 0, k)));
+    }
+    // (11.c) flat unpacking above 2^20 / 2^21 BYTES (2^23 / 2^24 bits), byte counts that are / are not multiples of 2^20 and of 64; the
+    //        count argument at lengths f32 cannot represent, around the full length, and refused
+    let mut uf: Vec<(usize, &str)> = vec![(M + 1, "none"), (M + 5, "none"), (M + 64, "-3"), (2 * M + 1, "none"), (2 * M + 3, "16777217"), (2 * M + 3, "-7")];
+    if thorough {
+        uf.extend([(M - 1, "none"), (M, "none"), (M + M / 2 + 3, "none"), (2 * M, "none"), (3 * M + 7, "none"), (2 * M + 3, "16777225"), (2 * M + 3, "-15"), (2 * M + 3, "16777219"), (2 * M + 3, "16777239"),
+                   (2 * M + 3, "16777240"), (2 * M + 3, "16777241"), (2 * M + 3, "-16777240"), (2 * M + 3, "-16777241"), (M + 5, "8388647"), (M + 5, "8388649"), (M + 5, "-8388647"), (M + 5, "1"), (M + 5, "0"), (M + 5, "8388609")]);
+    }
+    for (n, c) in &uf {
+        k += 1;
+        out(format!("unpack_g {} none {c} {}", g(&[*n], ["p0", "p1", "p2", "p3"][k % 4], thorough || *c == "16777217"), spell(k % 2 == 0, k)));
+    }
+    // a flat call on arrays of rank 2..4 (the flat form ravels)
+    let mut ur: Vec<Vec<usize>> = vec![vec![3, 349_527]];
+    if thorough { ur.extend(vec![vec![1025, 1, 1023], vec![2, 3, 5, 34_953], vec![M + 3, 1]]); }
+    for sh in &ur { k += 1; out(format!("unpack_g {} none none {}", g(sh, "p1", thorough), spell(k % 2 == 0, k))); out(format!("roundtrip_g {} none {}", g(sh, "p0", false), spell(k % 2 == 1, k))); }
+    // (11.d) unpacking lanes above 2^20 bytes
+    let mut ul: Vec<(Vec<usize>, isize, &str)> = vec![(vec![1, M + 5], 1, "none"), (vec![M + 3, 1], 0, "none"), (vec![2, M + 7], -1, "-5")];
+    if thorough { ul.extend(vec![(vec![M + 64, 2], 0, "none"), (vec![1, 2, M + 5, 1], 2, "none"), (vec![2, M + 1, 1], -2, "8388609"), (vec![1, 2 * M + 3], 1, "16777217"), (vec![2 * M + 1, 1], -2, "none"), (vec![3, M + 9], 1, "none")]); }
+    for (sh, ax, c) in &ul {
+        k += 1;
+        out(format!("unpack_g {} {ax} {c} {}", g(sh, ["p0", "p1", "p2", "p3"][k % 4], thorough), spell(k % 2 == 0, k)));
+    }
+    // (11.e) the round trip at giant sizes, flat and by axis (the packing half sees 2^23 + 40 .. 2^24 + 8 bits)
+    let mut rt: Vec<(Vec<usize>, &str)> = vec![(vec![M + 5], "none"), (vec![2 * M + 1], "none"), (vec![1, M + 5], "-1")];
+    if thorough { rt.extend(vec![(vec![M + 1, 1], "0"), (vec![2, M + 3], "1"), (vec![M + M / 2 + 1], "none"), (vec![2 * M + 1], "0"), (vec![1, 1, M + 65], "2")]); }
+    for (sh, ax) in &rt {
+        k += 1;
+        out(format!("roundtrip_g {} {ax} {}", g(sh, ["p0", "p1", "p3"][k % 3], thorough), spell(k % 2 == 0, k)));
+    }
+    // (11.f) lib giant_shapes() and rank-4 shapes above 2^20 elements along every axis with at most 17 000 lanes (the crate's
+    //        apply_along_axis is quadratic in the number of lanes); the quick tier rotates through them with the seed
+    let mut gs = giant_shapes();
+    gs.extend(vec![vec![2, 3, 64, 2731], vec![1, 2, 524_289, 1], vec![4, 16, 129, 128]]);
+    let mut slot = 0usize;
+    for sh in &gs {
+        let (n, r) = (prod(sh), sh.len());
+        for ax in 0..r {
+            if n / sh[ax] > 17_000 { continue; }
+            k += 1; slot += 1;
+            let axs = if k % 2 == 0 { ax.to_string() } else { (ax as isize - r as isize).to_string() };
+            let mine = thorough || slot % 4 == (seed as usize) % 4;
+            if mine { out(format!("unpack_g {} {axs} {} {}", g(sh, ["p0", "p1", "p2"][k % 3], thorough), if k % 3 == 0 { "-3" } else { "none" }, spell(k % 2 == 0, k))); }
+            if thorough || slot % 2 == (seed as usize) % 2 { out(format!("pack_g {} {axs} {}", g(sh, ["b0", "b1", "b2", "b4"][k % 4], thorough), spell(k % 2 == 1, k))); }
+            if thorough && (n / sh[ax] <= 2500 || ax == 0) { out(format!("roundtrip_g {} {axs} {}", g(sh, "p1", false), spell(k % 2 == 1, k + 1))); }
+        }
+    }
+    // refused giant calls (the checks come before any work)
+    out(format!("unpack_g {} 1 none none", g(&[M + 5], "p0", true)));
+    out(format!("pack_g {} none S:4c6974746c65", g(&[M + 5], "b0", true)));
+    out(format!("unpack_g {} none {} none", g(&[M + 5], "p0", true), 8 * (M + 5) + 1));
+    out(format!("unpack_g {} -1 -{} E:little", g(&[2, M + 5], "p0", thorough), 8 * (M + 5) + 1));
+
+    // (13) values related in a way random data never is
+    // constant sources (every accepted value of a set / clear bit), flat and as lanes
+    for v in [0u8, 1, 2, 128, 255] {
+        for l in [1usize, 7, 8, 9, 16, 17, 63, 64, 65, 1024, 1025] {
+            k += 1;
+            out(format!("pack {} none {}", arr(&[l], &vec![v; l]), spell(k % 2 == 0, k)));
+            if [8, 9, 64, 65].contains(&l) {
+                out(format!("{} {} 1 {}", opname_w("pack", 2 * l, "1", false), arr(&[2, l], &vec![v; 2 * l]), spell(k % 2 == 1, k)));
+                out(format!("{} {} 0 {}", opname_w("pack", 3 * l, "0", false), arr(&[l, 3], &vec![v; 3 * l]), spell(k % 2 == 0, k + 1)));
+            }
+        }
+    }
+    for v in [0x00u8, 0xFF, 0x80, 0x01, 0xAA, 0x55, 0x0F, 0xF0, 0x81, 0x18, 0xE7] {
+        for l in [1usize, 2, 8, 9, 64, 65, 1024, 1025] {
+            k += 1;
+            let a = arr(&[l], &vec![v; l]);
+            out(format!("roundtrip {a} none {}", spell(k % 2 == 0, k)));
+            out(format!("unpack {a} none {} {}", ["none", "-1", "9"][k % 3], spell(k % 2 == 1, k)));
+            if l == 9 || l == 65 { out(format!("roundtrip {} 1 {}", arr(&[2, l], &vec![v; 2 * l]), spell(k % 2 == 0, k + 1))); out(format!("unpack {} 0 none {}", arr(&[l, 2], &vec![v; 2 * l]), spell(k % 2 == 1, k + 1))); }
+        }
+    }
+    // the same bits spelled with different non-zero values (equal as bits, not identical), back to back and as neighbouring lanes
+    for l in [9usize, 17, 64, 65, 1024, 1031] {
+        k += 1;
+        let base = bits_fill(0, l, &mut fx);
+        let twins: Vec<Vec<u8>> = vec![base.clone(), base.iter().map(|b| b * 255).collect(), base.iter().map(|b| b * 2).collect(), base.iter().map(|b| b * 128).collect(),
+                                       base.iter().enumerate().map(|(i, b)| b * [1u8, 3, 64, 200, 255][i % 5]).collect(), base.clone()];
+        for little in [false, true] {
+            let o = spell(little, k);
+            out(format!("seq {}", twins.iter().map(|t| format!("pack {} none {o}", arr(&[l], t))).collect::<Vec<_>>().join(" / ")));
+            out(format!("{} {} 1 {o}", opname_w("pack", twins.len() * l, "1", false), arr(&[twins.len(), l], &twins.concat())));
+            out(format!("{} {} 0 {o}", opname_w("pack", twins.len() * l, "0", false), arr(&[l, twins.len()], &transposed(&twins))));
+        }
+    }
+    // palindromic bytes (both orders unpack alike) next to their neighbours, and an array next to its bit-reversed twin in the other order
+    for l in [3usize, 9, 16, 65, 257] {
+        k += 1;
+        let pal: Vec<u8> = (0..l).map(|i| [0x81u8, 0x18, 0x99, 0xC3, 0xE7, 0x00, 0xFF, 0x5A, 0xA5, 0x66][i % 10]).collect();
+        let any: Vec<u8> = fill(1, l, &mut fx);
+        let twin: Vec<u8> = any.iter().map(|b| rev8(*b)).collect();
+        let (p, a, t) = (arr(&[l], &pal), arr(&[l], &any), arr(&[l], &twin));
+        out(format!("seq unpack {p} none none E:big / unpack {p} none none E:little / unpack {a} none none E:big / unpack {t} none none E:little / unpack {a} none none E:little / unpack {t} none none E:big / roundtrip {p} none E:little / roundtrip {t} none S:626967"));
+        out(format!("{} {} 1 none E:little", opname_w("unpack", 3 * l, "1", false), arr(&[3, l], &[pal.clone(), any.clone(), twin.clone()].concat())));
+        out(format!("{} {} 1 E:little", opname_w("roundtrip", 3 * l, "1", false), arr(&[3, l], &[any.clone(), twin.clone(), pal.clone()].concat())));
+    }
+    // periodic / self-similar patterns: Thue-Morse bits and their complement, words of period 7 / 8 / 9 / 64, bytes of period 8 / 64 / 1024
+    for l in [64usize, 1024, 1031, 4096, 4101] {
+        k += 1;
+        let tm = thue_morse(l);
+        let co: Vec<u8> = tm.iter().map(|b| 1 - b).collect();
+        for little in [false, true] {
+            let o = spell(little, k);
+            out(format!("seq pack {} none {o} / pack {} none {o} / pack {} none {o}", arr(&[l], &tm), arr(&[l], &co), arr(&[l], &tm)));
+            if l <= 1031 {
+                out(format!("pack_ref {} 1 {o}", arr(&[2, l], &[tm.clone(), co.clone()].concat())));
+                out(format!("pack_ref {} 0 {o}", arr(&[l, 2], &transposed(&[tm.clone(), co.clone()]))));
+            }
+        }
+        for per in [7usize, 8, 9, 64] {
+            let w: Vec<u8> = (0..l).map(|i| ((i % per) * 5 % 3 == 0) as u8).collect();
+            out(format!("pack {} none {}", arr(&[l], &w), spell(per % 2 == 0, k)));
+        }
+    }
+    for (l, per) in [(1024usize, 8usize), (1030, 8), (1030, 64), (2056, 1024), (4100, 1024)] {
+        k += 1;
+        let v: Vec<u8> = (0..l).map(|i| ((i % per) * 37 % 251) as u8 ^ 0x80).collect();
+        out(format!("roundtrip {} none {}", arr(&[l], &v), spell(k % 2 == 0, k)));
+        out(format!("unpack {} none -5 {}", arr(&[l], &v), spell(k % 2 == 1, k)));
+    }
+
+    // (15) counts and axes whose product with 8 (bits per byte) / with the rank wraps modulo 2^64 into the accepted range:
+    //      k * 2^61 + c, k * 2^60 + c, the isize limits
+    for (sh, cs) in [(vec![3usize], vec![0i128, 5, 24]), (vec![2, 2], vec![1, 16]), (vec![2, 1, 3], vec![2, 8])] {
+        let n = prod(&sh);
+        let a = arr(&sh, &fill(4, n, &mut fx));
+        let b = arr(&sh, &bits_fill(1, n, &mut fx));
+        let mut vals: Vec<i128> = vec![i64::MAX as i128, i64::MIN as i128, i64::MIN as i128 + 1, i64::MAX as i128 - 1, (1i128 << 63) - 8, -(1i128 << 63) + 8];
+        for &c in &cs { for kk in [1i128, 2, 3] { for e in [60u32, 61, 62] { let v = kk * (1i128 << e) + c; vals.extend([v, -v, -v - 1]); } } }
+        vals.retain(|v| *v >= i64::MIN as i128 && *v <= i64::MAX as i128); vals.sort(); vals.dedup();
+        for v in vals {
+            out(format!("unpack {a} none {v} none")); out(format!("unpack {a} 0 {v} E:little")); out(format!("unpack {a} -1 {v} none"));
+            out(format!("unpack {a} {v} none none")); out(format!("pack {b} {v} E:little")); out(format!("roundtrip {a} {v} none"));
+        }
+    }
+}
+
 fn gen(tier: &str, seed: u64, out: &mut dyn FnMut(String)) {
     let mut buf: Vec<String> = vec![];
     gen_all(tier, seed, &mut |l| buf.push(l));
@@ -970,6 +1293,7 @@ fn gen_all(tier: &str, seed: u64, out: &mut dyn FnMut(String)) {
     }
     robustness(thorough, seed, out);
     robustness2(thorough, seed, out);
+    robustness3(thorough, seed, out);
     // (ii.g) binary_repr
     for ty in ["u8", "i8"] {
         let (lo, hi) = if ty == "u8" { (0i64, 255) } else { (-128, 127) };
@@ -1044,6 +1368,7 @@ fn gen_all(tier: &str, seed: u64, out: &mut dyn FnMut(String)) {
 fn nontrivial(op: &str, args: &[&str]) -> bool {
     match op {
         "unpack" | "pack" | "roundtrip" | "unpack_ref" | "pack_ref" | "roundtrip_ref" | "unpack_n" | "pack_n" | "roundtrip_n" => args[0].split_once(':').map_or(false, |(_, e)| e.contains(',')),
+        "unpack_g" | "pack_g" | "roundtrip_g" => true,
         "seq" => args.len() > 1 && args[1].split_once(':').map_or(false, |(_, e)| e.contains(',')),
         "oracle_report" => false,
         "binary_repr" | "repr_parse" => args[1] != "0" && args[1] != "1" && args[1] != "-1",
